@@ -112,11 +112,11 @@ def shapes_catalog(tier):
         for opn, op in (("+", SH.union), ("-", SH.cut), ("&", SH.inter)):
             out.append(("(%s[t]%s%s[s])" % (ka, opn, kb),
                         (lambda env, ka=ka, kb=kb, op=op: op(SH.PRIMS[ka](env, tag="A", dep="t"), SH.PRIMS[kb](env, tag="B", dep="s"))),
-                        dict(fam="bool", kind=opn, sample=not quick or opn == "+")))
+                        dict(fam="bool", kind=opn, sample=not quick)))
     for opn, op in (("+", SH.union), ("-", SH.cut), ("&", SH.inter)):
         out.append(("(Interval[t]%sInterval[s])" % opn,
                     (lambda env, op=op: op(SH.interval(env, tag="A", dep="t"), SH.interval(env, tag="B", dep="s"))),
-                    dict(fam="bool", kind=opn, sample=True, boundary=(opn == "+" or not quick))))
+                    dict(fam="bool", kind=opn, sample=(opn == "+" or not quick), boundary=(opn == "+" or not quick))))
     out.append(("(Circle[s]*Interval[t])",
                 lambda env: SH.product(SH.circle(env, tag="A", dep="s"), SH.interval(env, tag="B", var="y", dep="t")),
                 dict(fam="product", sample=True)))
@@ -206,28 +206,33 @@ def _positive(env, sh, rows, prow=None):
 
 
 class _TieList(list):
-    """rand_calls of the path: while `ref` is set, the j-th new call is assumed equal (element-wise) to ref[j]:
-    two executions then see the same random draws (the replay feeds the model's values, which satisfy the equalities)"""
+    """rand_calls of the path.  The random kernels name their fresh symbols after the index of the call
+    (`len(rand_calls)`); while `base` is set the list reports the index of the corresponding call of the FIRST
+    execution, so the second execution receives the very same symbols (identical terms, not merely equal values).
+    The duplicate entries are kept: the replay feeds one recorded call per real call, both executions get the
+    model's values of the same symbols."""
 
-    ref = None
+    base = None
     pos = 0
-    ctx = None
+    ref = ()
     mismatch = False
 
+    def __len__(self):
+        if self.base is not None:
+            return self.base + self.pos
+        return list.__len__(self)
+
     def append(self, item):
-        super().append(item)
-        if self.ref is None:
+        list.append(self, item)
+        if self.base is None:
             return
         if self.pos >= len(self.ref):
             self.mismatch = True
-            return
-        kind, shape, vs, extra = self.ref[self.pos]
+        else:
+            kind, shape = self.ref[self.pos][0], self.ref[self.pos][1]
+            if kind != item[0] or tuple(shape) != tuple(item[1]):
+                self.mismatch = True
         self.pos += 1
-        if kind != item[0] or tuple(shape) != tuple(item[1]) or kind == "perm":
-            self.mismatch = True
-            return
-        for a, b in zip(vs, item[2]):
-            self.ctx.assume(a == b)
 
 
 def same_draws(env, f1, f2):
@@ -237,18 +242,17 @@ def same_draws(env, f1, f2):
         return r1, f2(), True
     ctx = env.ctx
     if not isinstance(ctx.rand_calls, _TieList):
-        tl = _TieList(ctx.rand_calls)
-        tl.ctx = ctx
-        ctx.rand_calls = tl
+        ctx.rand_calls = _TieList(ctx.rand_calls)
     tl = ctx.rand_calls
-    n0 = len(tl)
+    n0 = list.__len__(tl)
     r1 = f1()
-    tl.ref, tl.pos, tl.mismatch = list(tl[n0:]), 0, False
+    n1 = list.__len__(tl)
+    tl.ref, tl.pos, tl.mismatch, tl.base = [tl[i] for i in range(n0, n1)], 0, False, n0
     try:
         r2 = f2()
-        ok = (not tl.mismatch) and tl.pos == len(tl.ref)
+        ok = (not tl.mismatch) and tl.pos == n1 - n0
     finally:
-        tl.ref = None
+        tl.base = None
     return r1, r2, ok
 
 
@@ -710,7 +714,7 @@ def cases(tier):
                 for order in ("call_then_part", "part_then_call"):
                     cs.append(agree_case(name, mk, info, fix, "contains", k, which="boundary", order=order))
                     cs.append(agree_case(name, mk, info, fix, "volume", k, which="boundary", order=order))
-                    if not quick or order == "part_then_call":
+                    if (not quick or order == "part_then_call") and info.get("fam") != "bool":
                         cs.append(agree_case(name, mk, info, fix, "random", 1, which="boundary", order=order, n=2))
         # repeated partial evaluation
         if len(pv) == 2:
